@@ -32,7 +32,7 @@ contract(CLOUD + "BaseCloud._post_request",
          let={"R": "retries"},
          raises={CLOUD + "CloudError": {}, "builtins.KeyError": {}, "builtins.ValueError": {}, "builtins.TypeError": {}},
          ensures={"at_most_the_configured_attempts": "1 <= len(events('http_post')) <= R"},
-         loops={"0": {"ghost_init": {"n": "0"}, "havoc": {"n": "int[0,8]"},
+         loops={"0": {"match": "retries > 0", "ghost_init": {"n": "0"}, "havoc": {"n": "int[0,8]"},
                       "invariant": ["n == R - retries", "retries >= 1"],
                       "ghost_step": {"n": "pre(n) + 1"},
                       "step_hints": {"one_post_per_attempt": "len(events('http_post')) == pre(len(events('http_post'))) + 1"},
@@ -50,7 +50,7 @@ contract(CLOUD + "BaseCloud.get_token",
          emits={"token_req": "udpid", "token_res": "result"},
          raises={CLOUD + "CloudError": {}, "builtins.KeyError": {}, "builtins.ValueError": {}, "builtins.TypeError": {}},
          ensures={"credentials_of_a_matching_entry_only": "final('token')['udpId'] == udpid and result == (final('token')['token'], final('token')['key'])"},
-         loops={"0": {}})
+         loops={"0": {"match": "tokenlist"}})
 
 
 # ---- C19: a discovered V3 device is authenticated with the credentials registered for its id, in either byte order ----------------
